@@ -10,6 +10,7 @@
 //                                   64 first stimuli issued at power-on, before any simulator event (half of the cases)
 //                                   256 clock frequencies incl. periods that are not a whole number of ps (300/150/600/3 MHz, 700/3 MHz, 1/7 GHz, 7/3 Hz)
 //                                   512 half of the single-edge runs end 100 ps behind a clock edge with reads made right after that edge
+//                                   1024 read/write addresses of non power-of-two memories are not reduced modulo the depth
 //                                   128 bidirectional pins released with 'Z' by the simulation process while the design drives (half of the cases)
 #include <gatery/pch.h>
 #include "designgen.h"
@@ -55,9 +56,10 @@ struct Opts {
 	bool undefStim = false;
 	unsigned freq = 0;        // index into kFrequencies (0 = 100 MHz); several have a period that is not a whole number of ps
 	bool endBehindEdge = false; // the run ends 100 ps behind a clock edge with reads made right after that edge (vectors a few ps behind an edge)
+	bool oobAddresses = false; // addresses of non power-of-two memories may exceed the depth
 	bool triNaive = false;    // bidirectional pin: the simulation process releases the pin with 'Z' while the design drives it
 	bool setAtPowerOn = false; // first SETs are issued at power-on (time 0, outside the event loop) instead of after a short wait
-	unsigned extra = 0;       // bit mask of extra parts: 1 wide arithmetic, 2 memory, 4 tristate pin, 8 BLOCK (area with an entity inside), 16 shapes of fixed findings, 32 second edge domain (derived clock, same pin, other trigger edge)
+	unsigned extra = 0;       // bit mask of extra parts: 1 wide arithmetic, 2 memory, 4 tristate pin, 8 BLOCK (area with an entity inside), 16 shapes of fixed findings, 32 second edge domain (derived clock, same pin, other trigger edge), 64 ROM/RAM with partly defined power-on words
 	uint64_t extraSeed = 0;
 };
 
@@ -72,6 +74,8 @@ static const std::pair<uint64_t, uint64_t> kFrequencies[] = {
 struct Extra {
 	std::vector<hlim::Node_Pin*> inPins; std::vector<size_t> inWidths;
 	int triPin = -1, triEnable = -1; // indices into inPins: bidirectional pin and its output-enable input
+	std::vector<std::pair<int, size_t>> addrPins; // (index into inPins, memory depth): defined stimuli are reduced modulo the depth
+	int lateWriteEnable = -1;     // index into inPins of a write enable that stays '0' during the first half of the run (reads before any write)
 	std::vector<hlim::Node_Pin*> outPins; std::vector<size_t> outWidths;
 	std::string desc;
 };
@@ -114,6 +118,43 @@ static void buildExtras(Extra &x, const Opts &o, const Clock &clock)
 		if (syncRead) rd = reg(rd, {.allowRetimingBackward = true});
 		auto p = pinOut(rd).setName("x_mrd"); x.outPins.push_back(p.node()); x.outWidths.push_back(dw);
 		x.desc += std::string(" mem=") + std::to_string(aw) + "x" + std::to_string(dw) + (syncRead ? "s" : "a") + (init ? "i" : "");
+	}
+	if (o.extra & 64) {
+		// ROM / RAM on the generic memory path (no target device) whose power-on content is PARTLY defined per word: every word is fully defined,
+		// has some undefined bits or is fully undefined; depths include non powers of two; two read ports (both asynchronous or both registered)
+		// whose data go straight to output pins x_rrd0 / x_rrd1 — with defined addresses such a read returns the stored word exactly, bit by bit
+		// (the driver treats a mismatch on these pins as a violation even though the reference run holds undefined values); a RAM is not written
+		// during the first half of the run.
+		size_t depth = 2 + rng.below(9), dw = 2 + rng.below(9);
+		size_t aw = 1; while ((size_t(1) << aw) < depth) aw++;
+		bool rom = rng.chance(1, 2), syncRead = rng.chance(1, 2);
+		Memory<UInt> mem(depth, UInt(BitWidth(dw)));
+		if (!syncRead) mem.setType(MemType::DONT_CARE, 0);
+		sim::DefaultBitVectorState st; st.resize(depth * dw);
+		std::string shape;
+		for (size_t wd = 0; wd < depth; wd++) {
+			unsigned mode = (unsigned) rng.below(4); // 0,1: all defined  2: some undefined  3: all undefined
+			shape.push_back(mode < 2 ? 'd' : mode == 2 ? 'p' : 'u');
+			for (size_t i = 0; i < dw; i++) {
+				bool def = mode < 2 || (mode == 2 && rng.chance(1, 2));
+				if (mode == 2 && i == 0) def = true;          // a partly defined word has at least one defined
+				if (mode == 2 && i == dw - 1) def = false;    // and one undefined bit
+				st.set(sim::DefaultConfig::DEFINED, wd * dw + i, def); st.set(sim::DefaultConfig::VALUE, wd * dw + i, def && rng.chance(1, 2));
+			}
+		}
+		mem.fillPowerOnState(st);
+		UInt ra0 = pinIn(BitWidth(aw)).setName("x_rra0"); UInt ra1 = pinIn(BitWidth(aw)).setName("x_rra1");
+		addIn(x, ra0); x.addrPins.push_back({(int) x.inPins.size() - 1, depth}); addIn(x, ra1); x.addrPins.push_back({(int) x.inPins.size() - 1, depth});
+		if (!rom) {
+			UInt wa = pinIn(BitWidth(aw)).setName("x_rwa"); UInt wdat = pinIn(BitWidth(dw)).setName("x_rwd"); Bit we = pinIn().setName("x_rwe");
+			addIn(x, wa); x.addrPins.push_back({(int) x.inPins.size() - 1, depth}); addIn(x, wdat); addIn(x, we); x.lateWriteEnable = (int) x.inPins.size() - 1;
+			IF (we) mem[wa] = wdat;
+		}
+		UInt rd0 = mem[ra0]; UInt rd1 = mem[ra1];
+		if (syncRead) { rd0 = reg(rd0, {.allowRetimingBackward = true}); rd1 = reg(rd1, {.allowRetimingBackward = true}); }
+		auto p0 = pinOut(rd0).setName("x_rrd0"); auto p1 = pinOut(rd1).setName("x_rrd1");
+		x.outPins.insert(x.outPins.end(), {p0.node(), p1.node()}); x.outWidths.insert(x.outWidths.end(), {dw, dw});
+		x.desc += std::string(" pmem=") + std::to_string(depth) + "x" + std::to_string(dw) + (rom ? "rom" : "ram") + (syncRead ? "s" : "a") + ":" + shape;
 	}
 	if (o.extra & 8) { // a plain area that contains an entity and logic of its own: exported as a BLOCK with local signals
 		size_t w = 1 + rng.below(6);
@@ -376,6 +417,20 @@ static bool runOne(uint64_t k, const vh::Recipe &recipe, const Opts &o, uint64_t
 		std::vector<hlim::Node_Pin*> outPins = b.outPins; outPins.insert(outPins.end(), x.outPins.begin(), x.outPins.end());
 		Rng srng(stimSeed);
 		vh::Stimulus st = vh::genStimulus(srng, inWidths, ncycles, o.undefStim);
+		if (!o.oobAddresses) { // fully defined addresses of the partly initialised memory stay inside a depth that need not be a power of two
+			// (an address >= depth is an index error in the exported VHDL — `memory(to_integer(addr))` on `array(NUM_WORDS-1 downto 0)` —
+			// while the reference simulator reads "undefined": reported as a finding, harness flag 1024 produces such addresses)
+			for (auto &[idx, depth] : x.addrPins)
+				for (auto &row : st.cycles) {
+					auto &v = row[b.inPins.size() + idx];
+					if (v.find('x') != std::string::npos) continue; // to_integer of a metavalue is 0
+					size_t n = 0; for (char c : v) n = n * 2 + (c == '1');
+					n %= depth;
+					for (size_t i = 0; i < v.size(); i++) v[v.size() - 1 - i] = ((n >> i) & 1) ? '1' : '0';
+				}
+		}
+		if (x.lateWriteEnable >= 0)
+			for (size_t c = 0; c < st.cycles.size() / 2; c++) st.cycles[c][b.inPins.size() + x.lateWriteEnable] = "0";
 		if (x.triPin >= 0) {
 			// The recorder cannot express high impedance (a 'Z' drive is written as 'X', FileBasedTestbenchRecorder.cpp:463) and the
 			// testbench signal starts with a 'U' driver.  tri=1: the testbench first drives a defined value while the design does not
@@ -491,7 +546,7 @@ int main(int argc, char **argv)
 		o.style = (unsigned) rng.below(3);
 		o.undefStim = (flags & 32) && rng.chance(1, 2);
 		o.setAtPowerOn = (flags & 64) && rng.chance(1, 2);
-		if (flags & 16) { if (rng.chance(1, 2)) o.extra = (unsigned) rng.below(64); }
+		if (flags & 16) { if (rng.chance(1, 2)) o.extra = (unsigned) rng.below(128); }
 		o.triNaive = (flags & 128) && rng.chance(1, 2);
 		if ((o.extra & 4) && o.triNaive) o.setAtPowerOn = false; // at most one of the two recorder findings per case
 		o.extraSeed = rng.next();
@@ -499,6 +554,7 @@ int main(int argc, char **argv)
 		size_t ncycles = 6 + rng.below(12);
 		if (flags & 256) o.freq = (unsigned) rng.below(sizeof(kFrequencies) / sizeof(kFrequencies[0]));
 		if (flags & 512) o.endBehindEdge = rng.chance(1, 2);
+		o.oobAddresses = (flags & 1024) != 0;
 		if (o.trigger == 2) o.endBehindEdge = false; // a both-edge clock: the 100 ps tail would be cut by nothing, but keep the variant to single-edge roots
 		if (longCycles) ncycles = longCycles + rng.below(longCycles / 4 + 1);
 		if (only != ~0ull && k != only) continue;
